@@ -63,7 +63,7 @@ CLAIMED['C10'] = dict(
        'aggregation is not decided.',
   design_ref='DESIGN.md section 3 C10',
   note='Raw access point sockets bypass the limit by design (named in the property). Trusted: struct sizes; len(x.encode()) == len(x) induction.',
-  technique='CFG lower-bound/dominance analysis + symbolic length agreement (ast)')
+  technique='CFG lower-bound/dominance analysis + symbolic length agreement + finite-grid folding of encode/decode pairs (ast)')
 CLAIMED['C17'] = dict(
   category='other',
   text='Decides per-site structural clauses of the addressing scheme: every store that creates a service access point is reached only after '
@@ -112,7 +112,7 @@ CLAIMED['C14'] = dict(
   design_ref='DESIGN.md section 3 C14',
   note='Trusted: the frame formats as written in the checker validators (NXP UM0701-02, CCID, RC-S380), struct semantics. One defect repaired '
        '(truncated response headers raised IndexError/struct.error).',
-  technique='finite evaluation of extracted frame expressions against an independent validator + CFG dominance/bounds (ast)')
+  technique='finite evaluation (folding) of frame builders and response handling against independent validators and single-defect corruptions + CFG dominance/bounds (ast)')
 CLAIMED['C13'] = dict(
   category='other',
   text='For each of the nine concrete driver classes the interprocedural exception-escape analysis, rooted at that class (methods resolve '
@@ -137,7 +137,7 @@ CLAIMED['C01'] = dict(
   design_ref='DESIGN.md section 3 C01',
   note='One defect repaired (empty message on Type 1/2 raised UnboundLocalError). Of the emulated Type 3 Tag only the block count limit is '
        'decided here (robustness is C07).',
-  technique='CFG dominance + definite-assignment analysis + writer/reader constant agreement (ast)')
+  technique='CFG dominance + definite-assignment analysis + writer/reader constant agreement + finite-grid folding of the Type 3/4 readers and writers against modelled tag commands (ast)')
 CLAIMED['C02'] = dict(
   category='other',
   text='Typestate over the CFG of every NDEF write routine: Type 1/2 zero the length and flush before any data store, flush data before any '
@@ -148,7 +148,7 @@ CLAIMED['C02'] = dict(
   design_ref='DESIGN.md section 3 C02',
   note='Known finding (Type 1 and Type 2): marker byte FFh and the 16-bit length share one flush; the pinned suite asserts the command '
        'transcripts, so it is recorded, not repaired. Trusted: flush order = ascending units, cut falls between commands.',
-  technique='write-phase typestate by CFG reachability (ast)')
+  technique='write-phase typestate by CFG reachability + finite-grid folding of the Type 4 writer to its command sequence (ast)')
 CLAIMED['C03'] = dict(
   category='other',
   text='Decides, per store site, that the Type 1/2 NDEF writers and the Type 2 format routine write the memory image only at the TLV\'s own '
@@ -160,7 +160,7 @@ CLAIMED['C03'] = dict(
        'consequence of the capacity computation and is not decided.',
   design_ref='DESIGN.md section 3 C03',
   note='Trusted: product memory maps tabulated in the rule (Topaz, Topaz-512, NTAG), control TLV semantics.',
-  technique='per-store guard dominance on the CFG + constant range containment (ast)')
+  technique='per-store guard dominance on the CFG + constant range containment + finite-grid folding (ast)')
 CLAIMED['C12'] = dict(
   category='other',
   text='Decides the structural clauses of the ISO-DEP initiator: block budget (FSC-3) with a partitioning I-block loop and FSC table/clamps; '
@@ -227,7 +227,7 @@ CLAIMED['C20'] = dict(
   design_ref='DESIGN.md section 3 C20',
   note='Known finding: FeliCa Lite-S protect derives the key with .encode("ascii"), authenticate does not (suite asserts str passwords for protect). '
        'Trusted: pyDes, vendor authentication procedures.',
-  technique='authorisation dominance on the CFG + sibling expression agreement by finite evaluation (ast)')
+  technique='authorisation dominance on the CFG + sibling expression agreement and MAC input layout by finite evaluation with modelled commands (ast)')
 CLAIMED['C16'] = dict(
   category='other',
   text='For all 30 concrete tag classes and every public operation of the tag and its NDEF object (about 850 class-rooted entry points) the '
@@ -286,7 +286,7 @@ def main():
         'engines': [{'name': 'nfcsa', 'path': 'nfcsa/', 'serves_properties': sorted(CLAIMED),
                      'kind_free_text': 'repository-specific static analyser over the Python ast: resolved class/call model, statement CFG with dominance/reachability queries, exception-escape analysis, lexical lock sets, table/length agreement rules'}],
         'checks': checks,
-        'notes': 'Static analysis only. Known findings: known_findings.json. Design: DESIGN.md.',
+        'notes': 'Static analysis only (ast / CFG / call graph over the current tree; some clauses are decided by folding parsed source fragments over finite grids with every outward call modelled by the checker -- DESIGN.md section 7 says what that does and does not decide; repository code is never imported or executed). Known findings: known_findings.json. Design: DESIGN.md.',
         'not_applicable': na,
     }
     with open(os.path.join(HERE, 'MANIFEST.json'), 'w') as f:
